@@ -96,12 +96,76 @@ Definition do_run (args : list text) : text :=
   | _ => bad
   end.
 
+(* ---- direct collector runs on synthetic heaps (hook H2) ---- *)
+Definition parse_value (s : text) : value :=
+  match s with
+  | 78 :: t => VNum (f64_of_bits (parse_hex t))
+  | 66 :: t => VBool (match t with [49] => true | _ => false end)
+  | 83 :: t => VStr (dec_text t)
+  | 76 :: t => VList (N.to_nat (parse_dec t))
+  | 82 :: t => VRec (N.to_nat (parse_dec t))
+  | _ => VNil
+  end.
+
+Definition pnat (s : text) : nat := N.to_nat (parse_dec s).
+
+(* reads n items with a reader that consumes tokens *)
+Fixpoint read_n {A} (fuel : nat) (n : nat) (rd : list text -> A * list text) (toks : list text) : list A * list text :=
+  match n with
+  | O => ([], toks)
+  | S n' => let '(a, r) := rd toks in let '(l, r') := read_n fuel n' rd r in (a :: l, r')
+  end.
+Definition read_counted {A} (rd : list text -> A * list text) (toks : list text) : list A * list text :=
+  match toks with n :: r => read_n 0 (pnat n) rd r | [] => ([], []) end.
+Definition rd_value (toks : list text) : value * list text := match toks with v :: r => (parse_value v, r) | [] => (VNil, []) end.
+Definition rd_nat (toks : list text) : nat * list text := match toks with v :: r => (pnat v, r) | [] => (O, []) end.
+Definition rd_entry (toks : list text) : (text * value) * list text :=
+  match toks with k :: v :: r => ((dec_text k, parse_value v), r) | _ => (([], VNil), []) end.
+
+Definition do_gc (args : list text) : text :=
+  let '(scopes, r1) := read_counted (read_counted rd_entry) args in
+  let '(lists, r2) := read_counted (read_counted rd_value) r1 in
+  let '(fl, r3) := read_counted rd_nat r2 in
+  let '(recs, r4) := read_counted (read_counted rd_entry) r3 in
+  let '(fr, _) := read_counted rd_nat r4 in
+  (* later duplicates of a key win, as HashMap::insert *)
+  let norm {A} (l : list (text * A)) := fold_left (fun acc kv => alist_set (fst kv) (snd kv) acc) l [] in
+  let scopes := map norm scopes in
+  let recs := map norm recs in
+  let h := mkHeap lists (rev fl) recs (rev fr) 0 in
+  match collect (rev scopes) h with
+  | Ok h' => [111;107;32] ++ show_state (rev scopes) h'
+  | Err e => show_err e
+  | Panic _ => [112;97;110;105;99]
+  | OutOfFuel => [104;97;110;103]
+  end.
+
+(* ---- std-library oracles for f64 ---- *)
+Definition nan_bits : Z := 9221120237041090560%Z.
+Definition bits_out (x : f64) : text := show_hex16 (match x with S754_nan => nan_bits | _ => f64_to_bits x end).
+Definition b01 (b : bool) : N := if b then 49 else 48.
+Definition do_f64 (args : list text) : text :=
+  match args with
+  | [[112;114;105;110;116]; b] => [111;107;32] ++ enc_text (f64_to_string (f64_of_bits (parse_hex b)))
+  | [[112;97;114;115;101]; t] => match parse_f64 (dec_text t) with Some x => [111;107;32] ++ bits_out x | None => [110;111;110;101] end
+  | [[117;115;105;122;101]; b] => [111;107;32] ++ show_Z (f_to_usize (f64_of_bits (parse_hex b)))
+  | [[97;114;105;116;104]; op; a; b] =>
+      let x := f64_of_bits (parse_hex a) in let y := f64_of_bits (parse_hex b) in
+      let r := if cmd_is op [97;100;100] then f_add x y else if cmd_is op [115;117;98] then f_sub x y
+               else if cmd_is op [109;117;108] then f_mul x y else if cmd_is op [100;105;118] then f_div x y
+               else if cmd_is op [114;101;109] then f_rem x y else S754_nan in
+      [111;107;32] ++ bits_out r ++ [32; b01 (f_ltb x y); b01 (f_leb x y); b01 (f_eqb x y)]
+  | _ => bad
+  end.
+
 Definition run_case (line : text) : text :=
   match split_on 32 line with
   | cmd :: args =>
       if cmd_is cmd [108;101;120] then do_lex args
       else if cmd_is cmd [112;97;114;115;101] then do_parse args
       else if cmd_is cmd [114;117;110] then do_run args
+      else if cmd_is cmd [103;99] then do_gc args
+      else if cmd_is cmd [102;54;52] then do_f64 args
       else [98;97;100;45;99;111;109;109;97;110;100]
   | [] => bad
   end.
